@@ -107,22 +107,22 @@ func runC09(c *core.Ctx) {
 			fieldOf := func(v ssa.Value) string { f, _ := verOperand(v); return f }
 			isVer := func(field string) core.Pred {
 				return func(v ssa.Value) (bool, bool) {
-					b, ok := v.(*ssa.BinOp)
-					if !ok || fieldOf(b.X) != field || fieldOf(b.Y) != field {
+					if _, isBin := v.(*ssa.BinOp); !isBin {
 						return false, false
 					}
-					kx, ky := allocKind(b.X), allocKind(b.Y)
+					// every spelling of the ordering test is read as (x < y) xor neg
+					x, y, neg, ok := lessForm(v)
+					if !ok || fieldOf(x) != field || fieldOf(y) != field {
+						return false, false
+					}
+					kx, ky := allocKind(x), allocKind(y)
 					if kx == "" || ky == "" || kx == ky {
 						return false, false
 					}
-					oldLeft := kx == "old"
-					switch b.Op.String() {
-					case ">":
-						return true, oldLeft // atom "old > new"
-					case "<":
-						return true, !oldLeft
+					if kx == "new" { // (new < old) xor neg: the atom "old > new" holds iff !neg
+						return true, !neg
 					}
-					return false, false
+					return false, false // (old < new) says nothing about old > new
 				}
 			}
 			for _, field := range []string{"ver", "confVer"} {
